@@ -113,6 +113,10 @@ def wb : List Ev → Option (Option Nat)
     match wb rest with
     | some (some a) => if a = b then some none else none
     | _ => none
+  | .raised b :: rest =>
+    match wb rest with
+    | some (some a) => if a = b then some none else none
+    | _ => none
   | _ :: rest => wb rest
 
 def isMain : Frame → Bool
@@ -133,7 +137,7 @@ structure Inv1 (s : St) : Prop where
 
 theorem step_inv1 (fixed : Bool) (s : St) (dt : Nat) (h : Inv1 s) : Inv1 (step fixed s dt) := by
   obtain ⟨o, hs, hw⟩ := h
-  rcases s with ⟨⟨idle, queue⟩, g, ⟨stack, log⟩⟩
+  rcases s with ⟨⟨idle, queue, rg⟩, g, ⟨stack, log⟩⟩
   simp only at hs hw
   cases hs with
   | nil => exact ⟨none, by simp [step, thStep]; exact Shape.nil, by simp [step, thStep, hw]⟩
@@ -173,6 +177,11 @@ theorem step_inv1 (fixed : Bool) (s : St) (dt : Nat) (h : Inv1 s) : Inv1 (step f
         · exact ⟨none, by simp [step, thStep, hd]; exact Shape.drain _ _ _ (by simp_all), by simp [step, thStep, hd, wb, hw]⟩
         · exact ⟨none, by simp [step, thStep, hd]; exact Shape.drain _ _ _ (by simp_all), by simp [step, thStep, hd, wb, hw]⟩
     | final => exact ⟨none, by simp [step, thStep]; exact Shape.main _ rfl, by simp [step, thStep, wb, hw]⟩
+    | abort => exact ⟨none, by simp [step, thStep]; exact Shape.main _ rfl, by simp [step, thStep, wb, hw]⟩
+    | waiting =>
+      have hr0 : ready = [] := hre (by simp)
+      subst hr0
+      exact ⟨none, by simp [step, thStep]; exact Shape.drain _ _ _ (by simp), by simp [step, thStep, wb, hw]⟩
   | inAct i ops ready mops =>
     cases ops with
     | nil => exact ⟨none, by simp [step, thStep]; exact Shape.drain _ _ _ (by simp_all), by simp [step, thStep, wb, hw]⟩
@@ -180,6 +189,7 @@ theorem step_inv1 (fixed : Bool) (s : St) (dt : Nat) (h : Inv1 s) : Inv1 (step f
       cases op
       case tick => exact ⟨some i, by simp [step, thStep]; exact Shape.inAct _ _ _ _, by simp [step, thStep, wb, hw]⟩
       case cancel => exact ⟨some i, by simp [step, thStep]; exact Shape.inAct _ _ _ _, by simp [step, thStep, wb, hw]⟩
+      case raise_ => exact ⟨none, by simp [step, thStep]; exact Shape.drain _ _ _ (by simp), by simp [step, thStep, wb, hw]⟩
       all_goals exact ⟨some i, by simp [step, thStep]; exact Shape.inEnq _ _ _ _ _, by simp [step, thStep, wb, hw]⟩
   | inEnq i it ops ready mops =>
     exact ⟨some i, by simp [step, thStep]; exact Shape.inAct _ _ _ _, by simp [step, thStep, wb, hw]⟩
@@ -240,10 +250,10 @@ macro "frame_tac" h:ident : tactic => `(tactic| (
   all_goals (try exact noPast_cons)))
 
 /-- the `Trampoline.run(item)` step (`enq` frame on top), whatever is below it. -/
-theorem enq_inv2 (fixed : Bool) (idle : Bool) (queue : List Item) (g : Glob) (id : Option Nat) (it : Item) (ops : List Op)
+theorem enq_inv2 (fixed : Bool) (idle : Bool) (queue : List Item) (rg : Bool) (g : Glob) (id : Option Nat) (it : Item) (ops : List Op)
     (rest : List Frame) (log : List Ev) (dt : Nat)
-    (h : Inv2 { tr := { idle := idle, queue := queue }, g := g, th := { stack := .enq id it ops :: rest, log := log } }) :
-    Inv2 (step fixed { tr := { idle := idle, queue := queue }, g := g, th := { stack := .enq id it ops :: rest, log := log } } dt) := by
+    (h : Inv2 { tr := { idle := idle, queue := queue, raisedG := rg }, g := g, th := { stack := .enq id it ops :: rest, log := log } }) :
+    Inv2 (step fixed { tr := { idle := idle, queue := queue, raisedG := rg }, g := g, th := { stack := .enq id it ops :: rest, log := log } } dt) := by
   obtain ⟨qs, sq, eo, dc, so⟩ := h
   simp only [readyOf, pendOf, List.map_append, ← List.append_assoc] at sq eo dc so
   have key_eq : key { it with seq := g.nsched } = (it.due, g.nsched) := rfl
@@ -298,7 +308,7 @@ theorem takeWhile_isDue (q : List Item) (c : Int) : ∀ x ∈ q.takeWhile (isDue
 
 theorem step_inv2 (fixed : Bool) (s : St) (dt : Nat) (h1 : Inv1 s) (h : Inv2 s) : Inv2 (step fixed s dt) := by
   obtain ⟨o, hs, hw⟩ := h1
-  rcases s with ⟨⟨idle, queue⟩, g, ⟨stack, log⟩⟩
+  rcases s with ⟨⟨idle, queue, rg⟩, g, ⟨stack, log⟩⟩
   simp only at hs hw
   cases hs with
   | nil => frame_tac h
@@ -314,6 +324,7 @@ theorem step_inv2 (fixed : Bool) (s : St) (dt : Nat) (h1 : Inv1 s) (h : Inv2 s) 
           cases op
           case tick d => frame_tac h
           case cancel k => frame_tac h
+          case raise_ => frame_tac h
           all_goals
             frame_tac h
             intro np a b hk
@@ -323,7 +334,7 @@ theorem step_inv2 (fixed : Bool) (s : St) (dt : Nat) (h1 : Inv1 s) (h : Inv2 s) 
     | enq id it ops =>
       cases id with
       | some i => simp [isMain] at hm
-      | none => exact enq_inv2 fixed _ _ _ _ _ _ _ _ dt h
+      | none => exact enq_inv2 fixed _ _ _ _ _ _ _ _ _ dt h
     | drain ph r => simp [isMain] at hm
   | drain ph ready ops hre =>
     cases ph with
@@ -426,6 +437,24 @@ theorem step_inv2 (fixed : Bool) (s : St) (dt : Nat) (h1 : Inv1 s) (h : Inv2 s) 
       · intro np
         simp only [readyOf, startsL, List.append_nil, pendOf]
         exact ⟨((so (noPast_cons np)).1).sublist hsub, by simp⟩
+    | waiting => frame_tac h
+    | abort =>
+      have hr0 : ready = [] := hre (by simp)
+      subst hr0
+      obtain ⟨qs, sq, eo, dc, so⟩ := h
+      simp only [readyOf, pendOf, List.append_nil, List.nil_append] at sq eo dc so
+      have hsub : (startsL log ++ List.map key ([] : List Item)).Sublist (startsL log ++ List.map key queue) := by
+        apply List.Sublist.append_left; simp
+      simp only [step, thStep]
+      refine ⟨List.Pairwise.nil, ?_, ?_, ?_, ?_⟩
+      · simp only [readyOf, startsL, List.append_nil]
+        intro k hk; exact sq k (hsub.subset hk)
+      · simp only [readyOf, startsL, List.append_nil]; exact eo.sublist hsub
+      · simp only [readyOf, startsL, List.append_nil]
+        intro k hk; have := dc k hk; omega
+      · intro np
+        simp only [readyOf, startsL, List.append_nil, pendOf]
+        exact ⟨((so (noPast_cons np)).1).sublist hsub, by simp⟩
   | inAct i ops ready mops =>
     cases ops with
     | nil => frame_tac h
@@ -433,12 +462,29 @@ theorem step_inv2 (fixed : Bool) (s : St) (dt : Nat) (h1 : Inv1 s) (h : Inv2 s) 
       cases op
       case tick d => frame_tac h
       case cancel k => frame_tac h
+      case raise_ =>
+        -- the exception discards the loop's local batch: everything still listed is a sub-list of what was listed
+        obtain ⟨qs, sq, eo, dc, so⟩ := h
+        simp only [readyOf, pendOf, List.append_nil] at sq eo dc so
+        have hsub : (startsL log ++ List.map key queue).Sublist (startsL log ++ List.map key (ready ++ queue)) := by
+          apply List.Sublist.append_left
+          simp
+        simp only [step, thStep]
+        refine ⟨qs, ?_, ?_, ?_, ?_⟩
+        · simp only [readyOf, startsL, List.append_nil, List.nil_append]
+          intro k hk; exact sq k (hsub.subset hk)
+        · simp only [readyOf, startsL, List.append_nil, List.nil_append]; exact eo.sublist hsub
+        · simp only [readyOf, startsL, List.append_nil, List.nil_append, List.map_nil]
+          intro k hk; have := dc k (by simp only [List.mem_append] at hk ⊢; exact Or.inl hk); omega
+        · intro np
+          simp only [readyOf, startsL, List.append_nil, List.nil_append, pendOf]
+          exact ⟨((so (noPast_cons np)).1).sublist hsub, by simp⟩
       all_goals
         frame_tac h
         intro np a b hk
         have h1 := h.dc (a, b) (by simp [readyOf]; exact hk)
         have h2 := np _ _ _ _ (List.mem_cons_self)
         simp at h1; omega
-  | inEnq i it ops ready mops => exact enq_inv2 fixed _ _ _ _ _ _ _ _ dt h
+  | inEnq i it ops ready mops => exact enq_inv2 fixed _ _ _ _ _ _ _ _ _ dt h
 
 end Thr.Tramp
